@@ -153,6 +153,10 @@ pub struct FaultRun {
     pub faulted: Option<(String, String, String)>,
     pub finding: Option<(String, String)>,
     pub op_errors: Vec<String>,
+    /// number of faults that actually fired
+    pub nfaults: u64,
+    /// both faults fired inside the same API call (outside C14's statement: one failing call per operation)
+    pub same_call: bool,
 }
 
 fn err_class(e: &str) -> String {
@@ -160,8 +164,8 @@ fn err_class(e: &str) -> String {
     head.trim().split_whitespace().take(4).collect::<Vec<_>>().join("-")
 }
 
-/// Run prefix (clean) + history with the k-th countable call failing (k = 0: no fault), then reopen cleanly.
-pub fn run_one<K: HKey>(dir: &Path, cfg: &Cfg, prefix: &[Op], opsq: &[Op], k: u64, universe: &[u8], verbose: bool) -> FaultRun {
+/// Run prefix (clean) + history with the k-th and the k2-th countable call failing (0: no such fault), then reopen cleanly.
+pub fn run_one<K: HKey>(dir: &Path, cfg: &Cfg, prefix: &[Op], opsq: &[Op], k: u64, k2: u64, universe: &[u8], verbose: bool) -> FaultRun {
     use crate::model::Ret;
     let mut um = UModel::<K>::default();
     if !prefix.is_empty() {
@@ -175,15 +179,25 @@ pub fn run_one<K: HKey>(dir: &Path, cfg: &Cfg, prefix: &[Op], opsq: &[Op], k: u6
     }
     let counter = Arc::new(AtomicU64::new(0));
     let faulted: Arc<Mutex<Option<(String, String)>>> = Arc::new(Mutex::new(None));
-    let (c2, f2) = (counter.clone(), faulted.clone());
+    let nfaults = Arc::new(AtomicU64::new(0));
+    // ordinal of the API call in progress; the ordinals of the calls the faults fired in
+    let cur = Arc::new(AtomicU64::new(0));
+    let fired_in: Arc<Mutex<Vec<u64>>> = Arc::new(Mutex::new(vec![]));
+    let (c2, f2, n2, cur2, fi2) = (counter.clone(), faulted.clone(), nfaults.clone(), cur.clone(), fired_in.clone());
     shim::arm(
         dir,
         Arc::new(move |ev, ph| {
             if let Phase::Pre = ph {
                 if ev.mutating {
                     let n = c2.fetch_add(1, Ordering::SeqCst) + 1;
-                    if n == k {
-                        *f2.lock().unwrap() = Some((ev.site(), ev.show()));
+                    if n == k || n == k2 {
+                        let mut f = f2.lock().unwrap();
+                        *f = Some(match f.take() {
+                            None => (ev.site(), ev.show()),
+                            Some((s0, c0)) => (format!("{s0}+{}", ev.site()), format!("{c0} and #{n} {}", ev.show())),
+                        });
+                        n2.fetch_add(1, Ordering::SeqCst);
+                        fi2.lock().unwrap().push(cur2.load(Ordering::SeqCst));
                         return libc::EIO;
                     }
                 }
@@ -191,13 +205,15 @@ pub fn run_one<K: HKey>(dir: &Path, cfg: &Cfg, prefix: &[Op], opsq: &[Op], k: u6
             0
         }),
     );
-    let mut run = FaultRun { calls: 0, faulted: None, finding: None, op_errors: vec![] };
+    let mut run = FaultRun { calls: 0, faulted: None, finding: None, op_errors: vec![], nfaults: 0, same_call: false };
     let mut inflight_at_fault = String::new();
     let body = |run: &mut FaultRun, um: &mut UModel<K>, inflight_at_fault: &mut String| -> Option<(String, String)> {
         shim::participate(true);
         let opened = Store::<K>::open(dir, cfg.config());
         shim::participate(false);
         let was_faulted = |f: &Arc<Mutex<Option<(String, String)>>>| f.lock().unwrap().is_some();
+        let fired = || nfaults.load(Ordering::SeqCst);
+        let next_call = || cur.fetch_add(1, Ordering::SeqCst);
         let mut st = match opened {
             Ok(s) => s,
             Err(e) => {
@@ -209,10 +225,22 @@ pub fn run_one<K: HKey>(dir: &Path, cfg: &Cfg, prefix: &[Op], opsq: &[Op], k: u6
                 }
                 *inflight_at_fault = "open".into();
                 run.op_errors.push(format!("open: {e}"));
-                // the faulted open may fail once; the retry must succeed
-                match Store::<K>::open(dir, cfg.config()) {
-                    Ok(s) => s,
-                    Err(e2) => return Some((format!("open-retry-failed/{}", err_class(&e2)), format!("open failed ({e}); the retry failed too: {e2}"))),
+                // a faulted open may fail; a retry that is not itself faulted must succeed
+                let mut last = e;
+                loop {
+                    let f0 = fired();
+                    next_call();
+                    shim::participate(true);
+                    let o = Store::<K>::open(dir, cfg.config());
+                    shim::participate(false);
+                    match o {
+                        Ok(s) => break s,
+                        Err(e2) if fired() > f0 && !e2.starts_with("PANIC") => {
+                            run.op_errors.push(format!("open: {e2}"));
+                            last = e2;
+                        }
+                        Err(e2) => return Some((format!("open-retry-failed/{}", err_class(&e2)), format!("open failed ({last}); the retry failed too: {e2}"))),
+                    }
                 }
             }
         };
@@ -221,15 +249,17 @@ pub fn run_one<K: HKey>(dir: &Path, cfg: &Cfg, prefix: &[Op], opsq: &[Op], k: u6
         }
         for (i, op) in opsq.iter().enumerate() {
             let before = was_faulted(&faulted);
+            let f_before = fired();
+            next_call();
             shim::participate(true);
             let r = st.apply(op);
             shim::participate(false);
             let now = was_faulted(&faulted);
-            if now && !before {
+            if fired() > f_before {
                 *inflight_at_fault = crate::crash::op_class(op).into();
             }
             if verbose {
-                println!("  op {i} `{}` -> {:?}{}", op.show::<K>(), r, if now && !before { "   <== fault injected here" } else { "" });
+                println!("  op {i} `{}` -> {:?}{}", op.show::<K>(), r, if fired() > f_before { "   <== fault injected here" } else { "" });
             }
             if let Err(e) = &r {
                 if e.starts_with("PANIC") {
@@ -240,13 +270,21 @@ pub fn run_one<K: HKey>(dir: &Path, cfg: &Cfg, prefix: &[Op], opsq: &[Op], k: u6
                 }
                 run.op_errors.push(format!("{}: {}", op.show::<K>(), e));
                 if matches!(op, Op::Reopen) {
-                    if before {
+                    if fired() == f_before {
                         // a reopen that was not itself faulted must succeed
                         return Some((format!("reopen-failed/{}", err_class(e)), format!("op {i} reopen failed after an earlier fault: {e}")));
                     }
-                    match st.reopen() {
-                        Ok(()) => {}
-                        Err(e2) => return Some((format!("reopen-retry-failed/{}", err_class(&e2)), format!("faulted reopen failed ({e}); the retry failed too: {e2}"))),
+                    loop {
+                        let f0 = fired();
+                        next_call();
+                        shim::participate(true);
+                        let o = st.reopen();
+                        shim::participate(false);
+                        match o {
+                            Ok(()) => break,
+                            Err(e2) if fired() > f0 && !e2.starts_with("PANIC") => run.op_errors.push(format!("reopen: {e2}")),
+                            Err(e2) => return Some((format!("reopen-retry-failed/{}", err_class(&e2)), format!("faulted reopen failed ({e}); the retry failed too: {e2}"))),
+                        }
                     }
                 }
             }
@@ -261,6 +299,7 @@ pub fn run_one<K: HKey>(dir: &Path, cfg: &Cfg, prefix: &[Op], opsq: &[Op], k: u6
                 return Some((o, format!("after op {i} `{}`: {d}", op.show::<K>())));
             }
         }
+        next_call();
         shim::participate(true);
         st.close();
         shim::participate(false);
@@ -270,6 +309,11 @@ pub fn run_one<K: HKey>(dir: &Path, cfg: &Cfg, prefix: &[Op], opsq: &[Op], k: u6
     shim::participate(false);
     shim::disarm();
     run.calls = counter.load(Ordering::SeqCst);
+    run.nfaults = nfaults.load(Ordering::SeqCst);
+    {
+        let fi = fired_in.lock().unwrap();
+        run.same_call = fi.len() == 2 && fi[0] == fi[1];
+    }
     run.faulted = faulted.lock().unwrap().clone().map(|(s, c)| (s, c, inflight_at_fault.clone()));
     run.finding = finding;
     if run.finding.is_none() {
@@ -286,35 +330,48 @@ pub fn run_one<K: HKey>(dir: &Path, cfg: &Cfg, prefix: &[Op], opsq: &[Op], k: u6
     run
 }
 
-pub fn case_json<K: HKey>(cfg: &Cfg, prefix: &[Op], opsq: &[Op], k: u64) -> Value {
-    json!({"engine": "fault", "key": K::NAME, "cfg": cfg, "prefix": prefix, "ops": opsq, "k": k,
-           "text": format!("prefix [{}] history [{}] fail call #{k}", ops::show_seq::<K>(prefix), ops::show_seq::<K>(opsq))})
+pub fn case_json<K: HKey>(cfg: &Cfg, prefix: &[Op], opsq: &[Op], k: u64, k2: u64) -> Value {
+    json!({"engine": "fault", "key": K::NAME, "cfg": cfg, "prefix": prefix, "ops": opsq, "k": k, "k2": k2,
+           "text": format!("prefix [{}] history [{}] fail call #{k}{}", ops::show_seq::<K>(prefix), ops::show_seq::<K>(opsq), if k2 > 0 { format!(" and call #{k2}") } else { String::new() })})
 }
 
-pub fn run_case<K: HKey>(cfg: &Cfg, prefix: &[Op], opsq: &[Op], only_k: Option<u64>, res: &mut WorkerResult, verbose: bool) -> Vec<Violation> {
+/// `double`: after the single-fault sweep, every pair of faults k < k2 (k2 counted in the run that already has fault k) as well.
+pub fn run_case<K: HKey>(cfg: &Cfg, prefix: &[Op], opsq: &[Op], only_k: Option<(u64, u64)>, double: bool, res: &mut WorkerResult, verbose: bool) -> Vec<Violation> {
     let mut all: Vec<Op> = prefix.to_vec();
     all.extend_from_slice(opsq);
     let universe = crate::seq::universe_of(&all);
     let mut vs = Vec::new();
     let dir = util::fresh_dir("flt");
-    let base = run_one::<K>(&dir, cfg, prefix, opsq, 0, &universe, false);
+    let base = run_one::<K>(&dir, cfg, prefix, opsq, 0, 0, &universe, false);
     util::rm_rf(&dir);
     res.count("histories", 1);
     if let Some((o, d)) = &base.finding {
         let mut v = Violation::new(&["C14"], &format!("nofault/{o}"), format!("[{} {}] `{}` without any fault: {d}", K::NAME, cfg.show(), ops::show_seq::<K>(opsq)));
-        v.replay = case_json::<K>(cfg, prefix, opsq, 0);
+        v.replay = case_json::<K>(cfg, prefix, opsq, 0, 0);
         vs.push(v);
         return vs;
     }
-    let ks: Vec<u64> = match only_k {
-        Some(k) => vec![k],
-        None => (1..=base.calls).collect(),
+    let mut work: std::collections::VecDeque<(u64, u64)> = match only_k {
+        Some(kk) => [kk].into(),
+        None => (1..=base.calls).map(|k| (k, 0)).collect(),
     };
-    for k in ks {
+    while let Some((k, k2)) = work.pop_front() {
         let dir = util::fresh_dir("flt");
-        let run = run_one::<K>(&dir, cfg, prefix, opsq, k, &universe, verbose);
+        let run = run_one::<K>(&dir, cfg, prefix, opsq, k, k2, &universe, verbose);
         util::rm_rf(&dir);
-        res.count("runs", 1);
+        if k2 > 0 && run.nfaults < 2 {
+            // the run with fault k makes fewer than k2 countable calls: all pairs (k, *) are done
+            continue;
+        }
+        if double && only_k.is_none() && vs.len() < 4 {
+            work.push_back((k, if k2 == 0 { k + 1 } else { k2 + 1 }));
+        }
+        if run.same_call {
+            // two failing calls inside one operation are outside the property's statement; the run is not judged
+            res.count("pairs_within_one_call_not_judged", 1);
+            continue;
+        }
+        res.count(if k2 > 0 { "double_fault_runs" } else { "runs" }, 1);
         res.count("transitions", opsq.len() as u64 + 2);
         let (site, call, inflight) = run.faulted.clone().unwrap_or(("none".into(), "none".into(), "none".into()));
         res.state(&format!("{site}|{inflight}|{}", run.op_errors.len()));
@@ -323,15 +380,20 @@ pub fn run_case<K: HKey>(cfg: &Cfg, prefix: &[Op], opsq: &[Op], only_k: Option<u
             let mut v = Violation::new(
                 &["C14"],
                 &o,
-                format!("[{} {}] prefix `{}` history `{}` with call #{k} {call} failing (EIO) during {inflight}: {d}; failed ops: {:?}",
-                    K::NAME, cfg.show(), ops::show_seq::<K>(prefix), ops::show_seq::<K>(opsq), run.op_errors),
+                format!("[{} {}] prefix `{}` history `{}` with call #{k}{} {call} failing (EIO) during {inflight}: {d}; failed ops: {:?}",
+                    K::NAME, cfg.show(), ops::show_seq::<K>(prefix), ops::show_seq::<K>(opsq), if k2 > 0 { format!(" and #{k2}") } else { String::new() }, run.op_errors),
             );
             v.sig = format!("{o}|fault={site}|during={inflight}");
-            v.replay = case_json::<K>(cfg, prefix, opsq, k);
+            v.replay = case_json::<K>(cfg, prefix, opsq, k, k2);
             vs.push(v);
         }
     }
     vs
+}
+
+fn two_fault_alphabet() -> Vec<Op> {
+    use crate::keys::*;
+    vec![Op::Put { k: 0, c: C_X, ch: 0 }, Op::Put { k: 1, c: C_Y, ch: 0 }, Op::Remove { k: 0 }, Op::Reopen]
 }
 
 pub fn plan(tier: &str) -> Vec<crate::crash::SubRun> {
@@ -350,6 +412,9 @@ pub fn plan(tier: &str) -> Vec<crate::crash::SubRun> {
         // a failed rollover checkpoint leaves two un-checkpointed segments; with 9 / 19 earlier ops their ids are 9 and 10
         v.push(SubRun { cfg: c(1, false), prefix: crate::crash::long_prefix(9), alphabet: ops::alphabet("crash"), depth: 3, nest: 0, label: "segment ids 9 -> 10 (N=1)" });
         v.push(SubRun { cfg: c(2, false), prefix: crate::crash::long_prefix(19), alphabet: ops::alphabet("crash"), depth: 3, nest: 0, label: "segment ids 9 -> 10 (N=2)" });
+        // deviation bound 2: every ordered pair of failing calls
+        v.push(SubRun { cfg: c(10_000, false), prefix: vec![], alphabet: two_fault_alphabet(), depth: 3, nest: 0, label: "two faults" });
+        v.push(SubRun { cfg: c(2, false), prefix: vec![], alphabet: two_fault_alphabet(), depth: 3, nest: 0, label: "two faults" });
     } else {
         for n in [1u64, 2, 3] {
             v.push(SubRun { cfg: c(n, false), prefix: crate::crash::long_prefix(10 * n as usize - 1), alphabet: ops::alphabet("crash"), depth: 4, nest: 0, label: "segment ids 9 -> 10" });
@@ -360,6 +425,10 @@ pub fn plan(tier: &str) -> Vec<crate::crash::SubRun> {
             v.push(SubRun { cfg: c(n, true), prefix: vec![], alphabet: ops::alphabet("crash"), depth: 3, nest: 0, label: "async d3" });
             v.push(SubRun { cfg: c(n, false), prefix: shared.clone(), alphabet: ops::alphabet("crash"), depth: 3, nest: 0, label: "shared-prefix d3" });
             v.push(SubRun { cfg: c(n, false), prefix: vec![], alphabet: crate::crash::big_alphabet(), depth: 3, nest: 0, label: "big records/blobs d3" });
+        }
+        for n in [1, 2, 10_000] {
+            v.push(SubRun { cfg: c(n, false), prefix: vec![], alphabet: ops::alphabet("crash"), depth: 3, nest: 0, label: "two faults d3" });
+            v.push(SubRun { cfg: c(n, false), prefix: vec![], alphabet: two_fault_alphabet(), depth: 4, nest: 0, label: "two faults d4" });
         }
         v.push(SubRun { cfg: c(10_000, false), prefix: vec![], alphabet: ops::alphabet("crash"), depth: 5, nest: 0, label: "fresh d5" });
         v.push(SubRun { cfg: c(2, false), prefix: vec![], alphabet: ops::alphabet("crash"), depth: 5, nest: 0, label: "fresh d5" });
@@ -380,9 +449,10 @@ pub fn run(tier: &str, slice: (u64, u64), seed: u64) -> WorkerResult {
             }
             let idx = (i + seed) % total;
             let opsq = ops::seq_of(&sr.alphabet, sr.depth, idx);
-            let vs = run_case::<String>(&sr.cfg, &sr.prefix, &opsq, None, &mut res, false);
+            let double = sr.label.starts_with("two faults");
+            let vs = run_case::<String>(&sr.cfg, &sr.prefix, &opsq, None, double, &mut res, false);
             if res.samples.len() < 2 && idx % 97 == 55 {
-                res.sample(case_json::<String>(&sr.cfg, &sr.prefix, &opsq, 7));
+                res.sample(case_json::<String>(&sr.cfg, &sr.prefix, &opsq, 7, 0));
             }
             for v in vs {
                 res.violate(v);
@@ -390,8 +460,9 @@ pub fn run(tier: &str, slice: (u64, u64), seed: u64) -> WorkerResult {
         }
         if slice.0 == 0 {
             res.completed.push(format!(
-                "{} {}: all {} histories of depth {} over {} symbols, prefix [{}], one EIO at every mutating/sync call incl. those of open and close",
-                sr.label, sr.cfg.show(), total, sr.depth, sr.alphabet.len(), ops::show_seq::<String>(&sr.prefix)
+                "{} {}: all {} histories of depth {} over {} symbols, prefix [{}], {} incl. those of open and close",
+                sr.label, sr.cfg.show(), total, sr.depth, sr.alphabet.len(), ops::show_seq::<String>(&sr.prefix),
+                if sr.label.starts_with("two faults") { "one EIO at every mutating/sync call and then EIO at every pair of calls (second call counted in the run that has the first fault)" } else { "one EIO at every mutating/sync call" }
             ));
         }
     }
@@ -403,7 +474,7 @@ pub fn replay(case: &Value) -> Vec<Violation> {
     let cfg: Cfg = serde_json::from_value(case["cfg"].clone()).expect("cfg");
     let prefix: Vec<Op> = serde_json::from_value(case["prefix"].clone()).expect("prefix");
     let opsq: Vec<Op> = serde_json::from_value(case["ops"].clone()).expect("ops");
-    let k = case["k"].as_u64();
+    let k = case["k"].as_u64().map(|k| (k, case["k2"].as_u64().unwrap_or(0)));
     let mut res = WorkerResult::new("fault");
-    run_case::<String>(&cfg, &prefix, &opsq, k, &mut res, true)
+    run_case::<String>(&cfg, &prefix, &opsq, k, false, &mut res, true)
 }
